@@ -122,7 +122,7 @@ def build_cases(seed, n_plain, n_fmt):
             base = inject.base(r)
             chosen = r.sample(classes, r.randint(2, 4))
             if na and k % 2 == 0:
-                chosen.append(r.choice(na))
+                chosen.append(na[(k // 2) % len(na)])      # every non-ASCII class (incl. non-NFC names) in every run
             spec, tags = inject.apply(base, chosen, r)
             writers = [fname]
             if fname in ("json", "glencoe", "fide") and not any(
